@@ -435,7 +435,8 @@ def job_partition_real_quantizers(period, Wb, npol):
                     be.filterbank[0][p].window = w
                     be.filterbank[0][p].channelized_stds = npx.sarr([Sym(RV(1)), Sym(RV(1))])
                 be.record('/mem/o', num_blocks=2, length_mode='num_blocks', header_dict={}, digitize=True, verbose=False, load_template=False)
-                ant.k = 0          # the same stream again: a second recording on the same backend object
+                ant.k = 0          # the same stream again: a second recording on the same backend object,
+                be.num_subblocks = (nsb % (Wb + 1)) + 1      # ... with the partition knob turned in between
                 be.record('/mem/p', num_blocks=2, length_mode='num_blocks', header_dict={}, digitize=True, verbose=False, load_template=False)
             leaf = core.run_single(run, [])
         data = []
@@ -458,8 +459,12 @@ def job_partition_real_quantizers(period, Wb, npol):
         if r == 'sat':
             recs.append(cex('C02:partition:real-quantisers', f'with quantiser statistics held from the first call (period {period}), num_subblocks={nsb} records other bytes than num_subblocks=1',
                             dict(fn='partition_real', period=period, Wb=Wb, npol=npol, nsb=nsb), name=name))
-    # the second recording of the same stream repeats the first (nothing of the first one is carried over)
-    dis = [z3.simplify(lift(x) - lift(y)) != 0 for a, b in zip(ref[:2], ref[2:]) for x, y in zip(a, b)]
+    # the second recording of the same stream (made with ANOTHER num_subblocks, assigned between the recordings) repeats
+    # the first: nothing of the first one, and nothing of its partition, is carried over
+    dis = []
+    for nsb_, (data_, _) in outs.items():
+        if len(data_) == 4:
+            dis += [z3.simplify(lift(x) - lift(y)) != 0 for a, b in zip(ref[:2], data_[2:]) for x, y in zip(a, b)]
     dis = [c for c in dis if not z3.is_false(z3.simplify(c))]
     r, _ = core.check([z3.Or(*dis)] if dis else [z3.BoolVal(False)], timeout_ms=60000)
     recs.append(q(f"C02:partition-real-quantisers:{(period, Wb, npol)}:second-recording", r))
@@ -529,7 +534,12 @@ def replay_partition_real(p):
                                       qz.ComplexQuantizer(num_bits=8, stats_calc_period=period, stats_calc_num_samples=2), start_chan=0, num_chans=4,
                                       block_size=2 * Wb * 4 * 2 * npol, blocks_per_file=2, num_subblocks=nsb)
             be.record(os.path.join(d, f'first{nsb}'), num_blocks=2, length_mode='num_blocks', header_dict={}, verbose=False, load_template=False)
-            be.record(os.path.join(d, f'o{nsb}'), num_blocks=2, length_mode='num_blocks', header_dict={}, verbose=False, load_template=False)
+            be.num_subblocks = (nsb % (Wb + 1)) + 1          # the partition knob turned between the recordings
+            try:
+                be.record(os.path.join(d, f'o{nsb}'), num_blocks=2, length_mode='num_blocks', header_dict={}, verbose=False, load_template=False)
+            except Exception as e:
+                shutil.rmtree(d, ignore_errors=True)
+                return True, f"period {period}: a second recording after num_subblocks was changed from {nsb} to {(nsb % (Wb + 1)) + 1} raised {type(e).__name__}: {e}"
             raw = open(os.path.join(d, f'o{nsb}.0000.raw'), 'rb').read()
             blocks, pos = [], 0
             while pos < len(raw):
@@ -678,6 +688,10 @@ def job_tiling(taps, npol, bits, start_obs):
         for li, leaf in enumerate(leaves):
             conds.append(leaf.cond())
             if leaf.kind == 'exc':
+                if isinstance(leaf.value, (AttributeError, NameError)):
+                    # the statements lifted from collect_data_block now read state the stand-in object does not model
+                    # (a refactor): this lemma does not apply; the executed-recording jobs still decide the property
+                    raise core.SliceMissing(f"tiling slice reads unmodelled state: {leaf.value!r}")
                 raise core.HarnessError(f"tiling slice raised {leaf.value!r}")
             o = leaf.value
             T, n2, W, ns, ti = lift(o['T']), lift(o['nsub']), lift(o['W']), lift(o['num_samples']), o['t_idx']
@@ -746,6 +760,10 @@ def job_tiling_adjacent(taps, npol, bits):
         conds = []
         for li, leaf in enumerate(leaves):
             conds.append(leaf.cond())
+            if leaf.kind == 'exc' or isinstance(leaf.value, BaseException):
+                if isinstance(leaf.value, (AttributeError, NameError)):
+                    raise core.SliceMissing(f"tiling slice reads unmodelled state: {leaf.value!r}")
+                raise core.HarnessError(f"tiling slice raised {leaf.value!r}")
             a, b = leaf.value
             r, m = core.check(pre + leaf.pc + leaf.side + [lift(b.start) != lift(a.stop)], timeout_ms=120000)
             recs.append(q(f"{tag}:leaf{li}", r))
